@@ -669,6 +669,46 @@ def slashPathNoComp (pop ds : List Char) : List Char :=
 def bracketPath (dots : Bool) (pop ds : List Char) : List Char :=
   (if dots then ['.', '.', '/'] else []) ++ (pop ++ '[' :: (ds ++ [']']))
 
+/-! ### a recogniser for the schema's `Nml2Quantity_time` pattern
+`-?([0-9]*(\.[0-9]+)?)([eE]-?[0-9]+)?[\s]*(s|ms)` (each optional group is taken when it can be: no later part of
+the pattern starts with a character the group could have consumed, so the greedy reading is the only one) -/
+
+/-- `-?` -/
+def optMinus : List Char → List Char × List Char
+  | '-' :: r => (['-'], r)
+  | s => ([], s)
+
+/-- `(\.[0-9]+)?` -/
+def optFrac (s : List Char) : List Char × List Char :=
+  match s with
+  | '.' :: r =>
+    if (r.takeWhile Char.isDigit).isEmpty then ([], s)
+    else ('.' :: r.takeWhile Char.isDigit, r.dropWhile Char.isDigit)
+  | _ => ([], s)
+
+/-- `([eE]-?[0-9]+)?` -/
+def optExp (s : List Char) : List Char × List Char :=
+  match s with
+  | c :: r =>
+    if c = 'e' ∨ c = 'E' then
+      if (((optMinus r).2).takeWhile Char.isDigit).isEmpty then ([], s)
+      else (c :: ((optMinus r).1 ++ ((optMinus r).2).takeWhile Char.isDigit), ((optMinus r).2).dropWhile Char.isDigit)
+    else ([], s)
+  | [] => ([], s)
+
+/-- number part of a time quantity and what follows it -/
+def timeNumSplit (s : List Char) : List Char × List Char :=
+  let a := optMinus s
+  let b := a.2.takeWhile Char.isDigit
+  let c := optFrac (a.2.dropWhile Char.isDigit)
+  let d := optExp c.2
+  (a.1 ++ b ++ c.1 ++ d.1, d.2)
+
+/-- does the whole string match the `Nml2Quantity_time` pattern? -/
+def matchTime (s : List Char) : Bool :=
+  let u := (timeNumSplit s).2.dropWhile isSpace
+  u == ['s'] || u == ['m', 's']
+
 /-! ## 5. exact rationals as `float` (driver only) -/
 
 /-- digits with single underscores between digits, as a natural number and a digit count -/
